@@ -28,20 +28,28 @@ Print Assumptions C16_object_pictures.
 
 (* load then save: whatever the numbering and manifest order of the source, an object folder is written back
    under the same path with the same media type, so every draw:object href still points at it *)
-Theorem C16_load_save : forall m member mime rs os p mtv, In (p, mtv) m -> classify m p = IsObject ->
-  In (p ++ s2l "content.xml") (names (fst (save_m (load_m m member mime rs os)))) /\
-  In (p ++ s2l "styles.xml") (names (fst (save_m (load_m m member mime rs os)))) /\
-  In (p, mtv) (snd (save_m (load_m m member mime rs os))).
+Theorem C16_load_save : forall foreign m member mime rs os p mtv, In (p, mtv) m -> classify foreign m p = IsObject ->
+  In (p ++ s2l "content.xml") (names (fst (save_m (load_m foreign m member mime rs os)))) /\
+  In (p ++ s2l "styles.xml") (names (fst (save_m (load_m foreign m member mime rs os)))) /\
+  In (p, mtv) (snd (save_m (load_m foreign m member mime rs os))).
 Proof. exact object_survives_load_save. Qed.
 Print Assumptions C16_load_save.
 
 (* ... and the other files below object folders (and anywhere else) travel byte-identically *)
-Theorem C16_other_files : forall m member mime rs os p mtv,
-  In (p, mtv) m -> classify m p = IsExtra -> ends_slash p = false -> str_eqb p sSIG = false ->
-  In (mkE p false [] (DBytes (member p))) (fst (save_m (load_m m member mime rs os))) /\
-  In (p, mtv) (snd (save_m (load_m m member mime rs os))).
+Theorem C16_other_files : forall foreign m member mime rs os p mtv,
+  In (p, mtv) m -> classify foreign m p = IsExtra -> ends_slash p = false -> str_eqb p sSIG = false ->
+  In (mkE p false [] (DBytes (member p))) (fst (save_m (load_m foreign m member mime rs os))) /\
+  In (p, mtv) (snd (save_m (load_m foreign m member mime rs os))).
 Proof. exact extra_survives_load_save. Qed.
 Print Assumptions C16_other_files.
+
+(* an embedded object that is not an OpenDocument document (foreign: its content.xml has a root element of another vocabulary -
+   the plain MathML of a formula): neither the folder nor any file in it is loaded into a sub-document, whatever the manifest
+   lists; they are members of the kind C16_other_files speaks of, so the reference still finds the very bytes it named *)
+Theorem C16_foreign_object_files : forall foreign m p, starts_with sOBJ p = true ->
+  foreign (fst (split_last_slash p [] [])) = true -> (ends_slash p = true -> foreign p = true) -> classify foreign m p = IsExtra.
+Proof. exact foreign_member_is_extra. Qed.
+Print Assumptions C16_foreign_object_files.
 
 (* taken: the folders of the objects the parent holds already.  An object attached under the default name gets a folder none
    of them has - whatever numbers a loaded package used for its objects, whatever names a caller gave (the first free
